@@ -234,6 +234,18 @@ impl Scenario for C09S {
                 out.viol(sig, format!("sender blocked forever in {} during {} (receiver gone: {})", b.in_call, what, gone.is_some()));
             }
         }
+        // a send that had returned an error before anything began to take the receiving end away
+        // (it existed, at a receiver or in transit inside an undelivered message) failed without cause
+        {
+            let first_threat = evs.iter().find(|e| e.op == "droprx.inv" || e.op == "crash").map(|e| e.seq).unwrap_or(u64::MAX);
+            for s in &sends {
+                if let Some(r) = s.2 {
+                    if !s.3 && r < first_threat {
+                        out.viol("send-err-while-receiver-exists:send", format!("send #{} failed ({}) at #{} although the receiving end existed until #{} at the earliest", s.0, s.4, r, first_threat));
+                    }
+                }
+            }
+        }
         if mode == "transit_unpack" {
             for s in &sends {
                 if s.2.is_some() && !s.3 {
@@ -247,7 +259,7 @@ impl Scenario for C09S {
         }
         // "fails cleanly": once every thread is done and every handle dropped, nothing that a
         // failed (or successful) send set up for its transfer may remain open
-        if blocked.is_empty() && hist::panics().is_empty() {
+        if blocked.is_empty() && !hist::panics().iter().any(|p| hist::library_panic(p)) {
             let extra = super::util::fds_beyond(&base_fds);
             if !extra.is_empty() {
                 let failed = sends.iter().filter(|s| s.2.is_some() && !s.3).count();
@@ -258,8 +270,8 @@ impl Scenario for C09S {
             out.viol("sigpipe:send", "SIGPIPE was raised by a send to a vanished receiver".into());
         }
         for pn in hist::panics() {
-            if pn.label == "sender" {
-                out.viol(&hist::panic_sig(pn), format!("sender panicked: {} at {}", pn.msg, pn.loc));
+            if pn.label == "sender" || hist::library_panic(pn) {
+                out.viol(&hist::panic_sig(pn), format!("[{}] panicked: {} at {}", pn.label, pn.msg, pn.loc));
             }
         }
         let attempted_after = gone.map(|g| sends.iter().any(|s| s.2.map(|r| r > g).unwrap_or(true))).unwrap_or(false);
